@@ -476,6 +476,27 @@ func runC08(c *Case) {
 	rk, e2 = conn.Rows("select * from " + tk)
 	dumpCheck("after-merge", rv, rk, e1, e2)
 	fresh("after-merge-fresh")
+	// merge with another writer's version that does touch the rows, in the other column: the other
+	// writer catches up, sets column b of every value row, and the first writer merges that; the
+	// values in column a - which the other writer never mentioned - keep their bits
+	if err := conn2.Exec("select s3db_refresh('" + tv2 + "')"); err == nil {
+		if n, err := conn2.ExecN("update " + tv2 + " set b = 'w2' where k < 7000 and b is null"); err == nil && n > 0 {
+			c.Count("rows_updated_by_the_other_writer", int64(n))
+			for row := range expV {
+				var id int64
+				fmt.Sscanf(row, "i:%d|", &id)
+				if id < 7000 && strings.HasSuffix(row, "|NULL") {
+					delete(expV, row)
+					expV[strings.TrimSuffix(row, "|NULL")+"|t:w2"] = true
+				}
+			}
+			conn.Exec("select s3db_refresh('" + tv + "')")
+			rv, e1 = conn.Rows("select * from " + tv)
+			rk, e2 = conn.Rows("select * from " + tk)
+			dumpCheck("after-foreign-update", rv, rk, e1, e2)
+			fresh("after-foreign-update-fresh")
+		}
+	}
 	// vacuum (cutoff in the past: nothing qualifies, but the whole vacuum path runs)
 	for _, t := range []string{tv, tk} {
 		res, err := conn.Rows("select * from s3db_vacuum('"+t+"', ?)", "2001-01-01 00:00:00")
